@@ -146,7 +146,8 @@ class SelectorMap:
     node = self._selector_tree
 
     for component in reversed(selector_components):
-      if component not in node:
+      # `_TERMINAL_KEY` is no selector component: it marks the end of a selector.
+      if component == _TERMINAL_KEY or component not in node:
         return []
       node = node[component]
 
